@@ -51,6 +51,10 @@ def step (st : State) (line : String) : State × String :=
   | "CONVTK" :: args => (st, handleConvTK st args)
   | "BYTETAB" :: args => (st, handleByteTab args)
   | "LOADTT" :: args => (st, handleLoadTT args)
+  | "HFA" :: args => handleHfLine st "HFA" args
+  | "HFV" :: args => handleHfLine st "HFV" args
+  | "HFM" :: args => handleHfLine st "HFM" args
+  | "CONVHF" :: args => (st, handleConvHf st args)
   | "BYTEPIECE" :: args => (st, handleBytePiece args)
   | "BPE" :: args => (st, handlePiece st args impl)
   | "UNI" :: args => (st, handlePiece st args impl)
